@@ -16,6 +16,7 @@ KINDS = ['file', 'empty', 'tree', 'link_file', 'link_dir', 'link_dangling',
 def config(tier):
     return {
         'level': 'exploration',
+        'cold_sample': 3 if tier == 'quick' else 20,
         'real_sample': 6 if tier == 'quick' else 40,
         'cases': 2500 if tier == 'quick' else 60000,
         'budget_s': 50 if tier == 'quick' else 560,
